@@ -10,12 +10,14 @@
    the property as an executable predicate over such a trace; the driver evaluates the same
    [check] on the traces of the Go implementation. *)
 From Coq Require Import NArith List Bool.
-From C28 Require Import Model ProofsRefute ProofsRun ProofsPow2.
+From C28 Require Import Model ProofsRefute ProofsRun ProofsPow2 ProofsUncond.
 Import ListNotations.
 Local Open Scope N_scope.
 
-(* For every heap base, every initial memory that is zero from the (aligned) heap base on, every
-   page maximum up to 65536 and every sequence of operations, the trace passes the checker:
+(* For every heap base, every initial memory of at most 65536 pages that is zero from the (aligned)
+   heap base on, every page maximum of the memory object (also one above 65536: it is the
+   allocator's own arithmetic, not the memory's limit, that keeps the size within 4 GiB) and
+   every sequence of operations, the trace passes the checker:
    each returned pointer is 8-byte aligned, lies above the heap base, its whole rounded-up block
    (next power of two, at least 8) lies inside the current memory and is disjoint (headers
    included) from every live allocation; bytes stored in a live allocation are read back
@@ -24,13 +26,29 @@ Local Open Scope N_scope.
    contain bytes the guest itself stored (a forged header) may be accepted — nothing is demanded
    of the rest of a run after such an acceptance, nor after any free through guest-stored
    bytes; after any failed call every later call fails (the allocator is poisoned); requests
-   above 32 MiB fail; the memory never exceeds 65536 pages (4 GiB). *)
+   above 32 MiB fail; no allocator call leaves the memory larger than 65536 pages (4 GiB).
+   Environment assumptions inside [check] (they set g_void, after which nothing more is
+   demanded by [check] — [check_uncond] below still is): the guest stores only inside the
+   requested size of live allocations, the memory object never shrinks, and the guest / the
+   embedder never make it larger than 65536 pages themselves. *)
 Theorem C28_spec : forall c init ops,
-  c_pages c <= c_max c -> c_max c <= max_wasm_pages ->
+  c_pages c <= max_wasm_pages ->
   (forall a, align_up (c_hb c) <= a -> init a = 0) ->
   check c (run fixed c init ops) = true.
 Proof. exact check_run. Qed.
 Print Assumptions C28_spec.
+
+(* The unconditional part of the property: NO hypothesis on the configuration, the initial memory
+   contents, the memory's page maximum or the guest's behaviour (forged headers, stores anywhere
+   through OWrite's live-only filter aside, shrunk memories — everything [check] gives up on
+   after g_void).  For every run of either variant: Allocate answers a pointer or an error,
+   Deallocate ok or an error; once a call has failed every later call fails; a request above
+   32 MiB fails; Deallocate leaves the memory size alone; Allocate never shrinks the memory and,
+   started at <= 65536 pages, never leaves it above 65536 pages — whatever maximum the memory
+   object itself has.  The driver evaluates [check_uncond] on every Go trace, void or not. *)
+Theorem C28_unconditional : forall v c init ops, check_uncond c (run v c init ops) = true.
+Proof. exact check_uncond_run. Qed.
+Print Assumptions C28_unconditional.
 
 (* requests above 32 MiB fail; an error poisons; a poisoned allocator fails for ever *)
 Theorem C28_max_request_and_poisoning : forall s m x,
@@ -38,10 +56,7 @@ Theorem C28_max_request_and_poisoning : forall s m x,
   /\ (forall e, fst (fst (alloc fixed s m x)) = RErr e -> s_poisoned (snd (fst (alloc fixed s m x))) = true)
   /\ (forall e, fst (fst (dealloc fixed s m x)) = RErr e -> s_poisoned (snd (fst (dealloc fixed s m x))) = true)
   /\ (s_poisoned s = true -> alloc fixed s m x = (RErr EPoisoned, s, m) /\ dealloc fixed s m x = (RErr EPoisoned, s, m)).
-Proof.
-  intros s m x. split; [apply alloc_too_large|]. split; [apply error_poisons_alloc|].
-  split; [apply error_poisons_dealloc|apply poisoned_forever].
-Qed.
+Proof. exact max_request_and_poisoning. Qed.
 Print Assumptions C28_max_request_and_poisoning.
 
 (* orderFromSize as the Go code computes it (bit-smearing next power of two on uint32, trailing
@@ -59,6 +74,29 @@ Example C28_nonvacuous :
   = [(RPtr 16, 1); (RPtr 32, 1); (ROk, 1); (RPtr 56, 3); (ROk, 3); (RPtr 32, 3); (RVal 170, 3); (ROk, 3);
      (RErr EEmptyHdr, 3); (RErr EPoisoned, 3)]
   /\ check c (run fixed c zero_mem ops) = true.
+Proof. split; vm_compute; reflexivity. Qed.
+
+(* non-vacuity of the 4 GiB clause: a memory object that would allow 131072 pages; the heap base
+   sits at the end of the 40000 pages present, so the first Allocate has to grow: doubling would
+   give 80000 pages, the allocator stops at 65536 *)
+Example C28_nonvacuous_4GiB :
+  let c := mkCfg 2621440000 40000 131072 in
+  let ops := [OAlloc 8; OAlloc 33554432] in
+  map (fun x => (o_res (snd x), o_pages (snd x))) (run fixed c zero_mem ops)
+  = [(RPtr 2621440008, 65536); (RPtr 2621440024, 65536)]
+  /\ check c (run fixed c zero_mem ops) = true /\ check_uncond c (run fixed c zero_mem ops) = true.
+Proof. split; [|split]; vm_compute; reflexivity. Qed.
+
+(* non-vacuity of the unconditional checker on a run that [check] has given up on: a forged
+   occupied header (order 3) inside a live payload is freed and accepted, the next request of
+   that order is served from inside the live block (g_void: the guest broke its discipline),
+   then a double free fails and poisons — which [check_uncond] still demands *)
+Example C28_nonvacuous_uncond :
+  let c := mkCfg 0 1 16 in
+  let ops := [OAlloc 200; OWrite 16 3; OWrite 20 1; OFree 24; OAlloc 64; OFree 8; OFree 8; OAlloc 1] in
+  map (fun x => o_res (snd x)) (run fixed c zero_mem ops)
+  = [RPtr 8; ROk; ROk; ROk; RPtr 24; ROk; RErr EEmptyHdr; RErr EPoisoned]
+  /\ check_uncond c (run fixed c zero_mem ops) = true.
 Proof. split; vm_compute; reflexivity. Qed.
 
 (* the pinned tree before the fixes: an unaligned invalid free was accepted and led to an
